@@ -148,6 +148,51 @@ def run_c06(rep, tier, seed):
             impl_lines.append(f"c.close {cid}")
             cases.append(("pipeline", start, len(impl_lines) - start, len(model_lines), reqs, expected))
             model_lines.append(f"serve {data.hex()}")
+    # the client library (net/client.rs) against a scripted one-shot server: what Client::{get,set,del} send and what they
+    # return for the reply the map model gives, for error replies, for replies of the wrong kind, for truncated replies and
+    # for end of stream — compared with the Lean client model (Resp/Client.lean, `cl.call` in the driver)
+    def enc_bulk(b):
+        return b"$%d\r\n" % len(b) + b + b"\r\n"
+    cl_lines, cl_expect = [], []
+    ckeys = [b"k", b"key-2", "cl\u00e9".encode(), b"", b"a b", b"x" * 300]
+    nclient = 40 if tier == "quick" else 400
+    for ci in range(nclient):
+        op = rng.choice(["get", "set", "del"])
+        k = rng.choice(ckeys)
+        v = bytes(rng.getrandbits(8) for _ in range(rng.choice([0, 1, 5, 40, 9000])))
+        ks = [rng.choice(ckeys) for _ in range(rng.randint(1, 3))]
+        good = {"get": rng.choice([enc_bulk(v), b"$-1\r\n"]), "set": b"+OK\r\n", "del": b":%d\r\n" % rng.randint(0, 3)}[op]
+        others = [b"-ERR something went wrong\r\n", b"+OK\r\n", b"+ok\r\n", b":7\r\n", b"$-1\r\n", enc_bulk(b"v"), b"*0\r\n", b"*1\r\n$1\r\nx\r\n",
+                  good[:-1], good[:1], b"", b"!bogus\r\n", b":12x\r\n"]
+        reply = good if rng.random() < 0.5 else rng.choice(others)
+        rtok = "eof" if reply == b"" else reply.hex()
+        args = {"get": hx(k), "set": f"{hx(k)} {hx(v)}", "del": ",".join(hx(x) for x in ks)}[op]
+        if op != "del" and hx(k) == "-" or (op == "del" and any(hx(x) == "-" for x in ks)):
+            continue      # the line protocol writes the empty string as `-`; keep to non-empty keys here
+        cl_lines.append(f"cl.call {op} {args} reply={rtok}")
+        cl_expect.append((op, reply == good, good, v))
+    if cl_lines:
+        try:
+            ci_ = run_harness(["net", "--root", root + "-cl"], cl_lines, timeout=900)
+            cdied = None
+        except Died as d:
+            ci_, cdied = d.answered, d
+        cm_ = run_driver(cl_lines)
+        rep.cov["evaluations"] += len(cl_lines)
+        rep.count("client_library_calls", len(cl_lines))
+        if cdied is not None:
+            rep.violation("oracle", dict(what=f"the client library call died / hung ({cdied.why})", script=cl_lines[:len(ci_) + 1][-3:]))
+        ncl = 0
+        for l, a, m_, (op, was_good, good, v) in zip(cl_lines, ci_, cm_, cl_expect):
+            rep.count("client:" + a.split(" ")[0] + ":" + (a.split(" ")[1].split(":")[0] if a.startswith("err") else "ok"))
+            kind = None
+            if was_good and not a.startswith("ok"):
+                kind, what = "oracle", "the client library rejects the reply a correct server gives"
+            elif a != m_:
+                kind, what = "correspondence", "the client library and its model differ (result or request bytes)"
+            if kind and ncl < 3:
+                ncl += 1
+                rep.violation(kind, dict(what=what, script=[l[:600]], expected=m_[:600], observed=a[:600]))
     # large replies against a client that does not read for a while (the socket buffer fills; a reply must still arrive whole)
     big_checks = []
     for (nbytes, ngets) in ([(3000000, 4)] if tier == "quick" else [(300000, 40), (3000000, 6), (12000000, 2)]):
